@@ -283,7 +283,7 @@ fn main() {
     let check = Check::new("C10", "translation_validation");
     check.rule("expression ASTs of depth<=4 generated directly in the shape the parser produces (non-negative literals incl. 0, 1, 2^53+1, i64::MAX; unary minus/not; all arithmetic, comparison, boolean, in operators; calls, if, arrays, index; 3 fields of every scalar type + arrays, 1 missing field); oracle: eval(e) vs eval(fold_program(e)) with the runtime evaluator, same Option, same type, floats bit-exact (NaN=NaN); harness self-check parse(render(e)) == fold(e) on every case; non-trivial = folding changed the AST and the expression references a field");
     check.assume("runtime evaluator eval_filter_expr is the semantics of both sides; fold is reached through the public optimize::fold_program with a Stmt::Expr wrapper (same fold_expr the parser applies to stream ops)");
-    check.explore("fold_vs_eval", strat, 20_000, 400_000, run);
+    check.explore("fold_vs_eval", strat, 15_000, 300_000, run);
     let mism = RENDER_MISMATCH.load(AO::Relaxed);
     if mism > 0 {
         check.inconclusive(format!("{} cases where parse(render(e)) != fold(e) (renderer/parser mismatch, see discards)", mism));
